@@ -63,6 +63,7 @@ class Opts:
         self.stubs = {}            # callee -> fn(ctx, args) -> value
         self.wide_mul = False      # mul as low half of one 2n-bit product term (shared with oracles)
         self.mul_uf = False        # symbolic*symbolic products as MULW<2w>(ext a, ext b), an uninterpreted function
+        self.loop_cut = None       # callable(header, init phi values, env) -> symbolic phi values (cut at the loop head)
         self.int_mode = False      # mathematical-integer semantics (IntExec): wrap explicit only where no nsw/nuw
         self.mul_ovf = "exact"     # 'exact' | 'bits' (multiplier-free sufficient condition for no signed overflow)
         self.div_spec = False      # sdiv/srem by specification with fresh quotient/remainder
@@ -89,6 +90,9 @@ class Result:
         self.instrs = 0
         self.calls = []            # (callee, args, result) for stubbed calls
         self.blocks_reached = set()
+        self.loop_init = None      # loop cut: phi values on entry
+        self.loop_state = None
+        self.loop_next = []        # [(cond of taking the back edge, {phi: next value})]
 
     def ub_any(self):
         return z3.Or([c for _, _, c in self.ub]) if self.ub else z3.BoolVal(False)
@@ -346,6 +350,15 @@ def encode(mod, fname, args, opts=None):
                 val = v if val is None else ite_val(c, v, val)
             phivals[ins.dest] = val
             idx += 1
+        if opts.loop_cut is not None and node[1] == 0 and b in loops:
+            # loop cut: the state at the loop head is replaced by the caller's symbolic state; the values the real
+            # code enters the loop with are recorded for the Init obligation
+            res.loop_init = dict(phivals)
+            res.loop_init_cond = pc
+            res.loop_header = b
+            res.loop_phis = [ins for ins in instrs[:idx]]
+            phivals = opts.loop_cut(b, phivals, env)
+            res.loop_state = dict(phivals)
         env.update(phivals)
         ex.pc = pc
         for ins in instrs[idx:-1]:
@@ -376,6 +389,14 @@ def encode(mod, fname, args, opts=None):
                 full = pc if is_true(c) else (c if is_true(pc) else z3.And(pc, c))
                 t = node_of(b, node[1], v)
                 if t is None:
+                    if opts.loop_cut is not None:
+                        nxt = {}
+                        for pins in f.blocks[v]:
+                            if pins.op != "phi":
+                                break
+                            nxt[pins.dest] = ex.operand(pins.args[pins.extra.index(b)], env)
+                        res.loop_next.append((full, nxt))
+                        continue
                     res.unwind = z3.Or(res.unwind, full)
                     continue
                 incoming.setdefault(t, []).append((b, full, env))
@@ -874,14 +895,19 @@ class Exec:
         if op in ("sitofp", "uitofp"):
             a = self.operand(ins.args[0], env)
             kind = self.ty(ins.ty).kind
-            r = z3.ToReal(z3.BV2Int(a, is_signed=(op == "sitofp")))
-            # exact when |a| < 2^mant; recorded as a side condition ("inexact-int-to-fp") so the caller can prove it
             m = 53 if kind == "double" else 24
             w = a.size()
-            if w > m:
+            if isinstance(a, IV):
+                ai = a.t if op == "sitofp" else a.t % (1 << w)
+                r = z3.ToReal(ai)
+                inexact = z3.Not(z3.And(ai <= (1 << m), ai >= -(1 << m)))
+            else:
+                r = z3.ToReal(z3.BV2Int(a, is_signed=(op == "sitofp")))
                 lim = bv(w, 1 << m)
-                self.res.__dict__.setdefault("real_side", []).append(
-                    ("int-to-fp-exact", z3.And(self.pc, z3.Not(z3.And(a <= lim, a >= -lim)))))
+                inexact = z3.Not(z3.And(a <= lim, a >= -lim))
+            # exact when |a| <= 2^mant; otherwise the abstraction does not apply: recorded as a UB-like side condition
+            if w > m:
+                self.ub("int-to-fp-inexact (outside the real abstraction)", ins, inexact)
             env[ins.dest] = RealFp(r, kind)
         elif op in ("fadd", "fsub", "fmul", "fdiv"):
             a = self.operand(ins.args[0], env)
@@ -903,7 +929,7 @@ class Exec:
             b = self.operand(ins.args[1], env).r
             r = {"olt": a < b, "ogt": a > b, "ole": a <= b, "oge": a >= b, "oeq": a == b, "one": a != b,
                  "ult": a < b, "ugt": a > b, "ule": a <= b, "uge": a >= b, "ueq": a == b, "une": a != b}[pred]
-            env[ins.dest] = b2bv(simp(r))
+            env[ins.dest] = IV(z3.If(simp(r), z3.IntVal(1), z3.IntVal(0)), 1) if self.opts.int_mode else b2bv(simp(r))
         elif op == "fptosi":
             a = self.operand(ins.args[0], env)
             w = self.ty(ins.ty).w
@@ -911,8 +937,7 @@ class Exec:
             fl = z3.ToInt(a.r)
             t = z3.If(a.r >= 0, fl, -z3.ToInt(-a.r))
             self.ub("float-cast-overflow", ins, z3.Or(t >= 2 ** (w - 1), t < -(2 ** (w - 1))))
-            env[ins.dest] = z3.Int2BV(t, w)
-            self.res.__dict__.setdefault("real_ints", {})[ins.dest] = t
+            env[ins.dest] = IV(t, w) if self.opts.int_mode else z3.Int2BV(t, w)
         elif op in ("fpext",):
             a = self.operand(ins.args[0], env)
             env[ins.dest] = RealFp(a.r, "double")
@@ -1148,8 +1173,8 @@ class IntExec(Exec):
             return IV(z3.IntVal(0), ty.w)
         if op.kind == "reg":
             return env[op.v]
-        if op.kind in ("global", "cexpr"):
-            return Exec.operand(self, op, env)      # constant pointer into a global
+        if op.kind in ("global", "cexpr", "fp"):
+            return Exec.operand(self, op, env)      # constant pointer into a global / fp literal (real mode)
         raise Unsupported("operand %s in INT mode" % op.kind)
 
     def rng(self, t, w):
@@ -1267,6 +1292,11 @@ class IntExec(Exec):
         if op == "freeze":
             env[ins.dest] = self.operand(ins.args[0], env)
             return
+        if op in ("fadd", "fsub", "fmul", "fdiv", "fneg", "fcmp", "sitofp", "uitofp", "fptosi", "fpext"):
+            if o.fp_mode != "real":
+                raise Unsupported("floating point in INT mode needs fp_mode='real'")
+            self.fpstep_real(ins, env)
+            return
         if op == "load":
             p = self.operand(ins.args[0], env)
             v = simp(Exec.load(self, ins, p, ins.ty))
@@ -1282,6 +1312,16 @@ class IntExec(Exec):
                 env[ins.dest] = self.operand(ins.args[0], env)
                 return
             if name.startswith("llvm.lifetime") or name.startswith("llvm.dbg") or name.startswith("llvm.assume"):
+                return
+            if name.startswith("llvm.fmuladd") or name.startswith("llvm.fabs"):
+                Exec.call(self, ins, env)
+                return
+            if name.startswith("llvm.ctlz") or name.startswith("llvm.cttz"):
+                # not modelled arithmetically in INT mode: an arbitrary count in [0, w] (sound over-approximation)
+                w = self.ty(ins.ty).w
+                c = self.fresh("clz", z3.IntSort())
+                self.res.assumes.append(z3.And(c >= 0, c <= w))
+                env[ins.dest] = IV(c, w)
                 return
             if name in o.stubs:
                 args = [self.operand(a, env) for a in ins.args]
